@@ -363,8 +363,10 @@ def main():
         hist = [h for h in hist if len(h) <= 2 or (h[0] in adds and h[1] in adds)]
     else:
         adds = [o for o in ops if o[0] in ("add", "add2")]
-        hist = [h for h in hist if len(h) <= 2 or (h[0] in adds and (len(h) == 3 or h[1] in adds))]
-        hist = [h for h in hist if len(h) < 4 or (h[2][0] != "add" or h[3][0] != "add")]
+        core = [o for o in adds if (o[0] == "add" and o[1][1] <= 3) or o in (("add2", ("u", 0), ("u", 1)), ("add2", ("u", 2), ("u", 3)))]
+        # depth 3: first call populates; depth 4: two populating calls from the core adds, then a non-add, then anything
+        hist = [h for h in hist if len(h) <= 2 or (len(h) == 3 and h[0] in adds)
+                or (len(h) == 4 and h[0] in core and h[1] in core and h[2][0] not in ("add", "add2", "addf"))]
     chk.bounds = {"universe": "u0,u1 Entry; u2,u3 String; u4 Preamble; u5 ExplicitComment; u6 ParsingFailedBlock; every Entry/String key one symbolic character over {a,b}",
                   "operations": f"{len(ops)} concrete operation shapes (add, add with fail_on_duplicate_key, add of a 2-list, remove, remove of a 2-list, replace in both fail modes; arguments = universe blocks or currently held blocks h0/h1)",
                   "histories": f"{len(hist)} histories of <= {depth} calls from the empty library"}
